@@ -158,11 +158,24 @@ pub struct ExecCase {
     pub state: StateSpec,
     pub costs: CostTable,
     pub limit: u64,
+    /// Some(m): the machine is a compute child whose (read-only) parent memory is `m`.
+    #[serde(default)]
+    pub parent: Option<Vec<i64>>,
 }
 
 impl ExecCase {
+    /// The real VM in the case's initial state.
+    pub fn make_vm(&self) -> Option<Vm> {
+        let mut vm = make_vm(&self.init)?;
+        if let Some(pm) = &self.parent {
+            vm.parent_memory = vec![Arc::new(Memory::try_from(pm.clone()).ok()?)];
+        }
+        Some(vm)
+    }
+
     pub fn simple(prog: Vec<MOp>) -> Self {
         ExecCase {
+            parent: None,
             prog,
             init: MState::default(),
             solutions: vec![MSolution::default()],
@@ -188,7 +201,7 @@ pub fn run_exec(case: &ExecCase, bytecode: bool) -> Result<ExecOutcome, Violatio
 
 /// Same, with the state views recording every request into `log`.
 pub fn run_exec_logged(case: &ExecCase, bytecode: bool, log: Option<Arc<crate::doubles::Log>>) -> Result<ExecOutcome, Violation> {
-    let Some(mut vm) = make_vm(&case.init) else {
+    let Some(mut vm) = case.make_vm() else {
         return Err(viol!("harness:unreachable-init", "initial state not constructible: {:?}", case.init));
     };
     let ops = to_real_ops(&case.prog);
@@ -297,7 +310,7 @@ fn tail(v: &[i64]) -> &[i64] {
 /// executed on the real VM beyond what RefVm has approved step by step.
 pub fn lockstep(case: &ExecCase, cfg: &LockCfg, obs: &mut Obs) -> Result<LockSummary, Violation> {
     let mut sum = LockSummary::default();
-    let Some(mut vm) = make_vm(&case.init) else {
+    let Some(mut vm) = case.make_vm() else {
         return Err(viol!("harness:unreachable-init", "initial state not constructible: {:?}", case.init));
     };
     let ops = to_real_ops(&case.prog);
@@ -317,6 +330,10 @@ pub fn lockstep(case: &ExecCase, cfg: &LockCfg, obs: &mut Obs) -> Result<LockSum
         breadth_cap: cfg.breadth_cap,
     };
     let mut m = Machine::new(&case.prog, case.init.clone(), &env, case.limit);
+    if let Some(pm) = &case.parent {
+        m.pmem = Some(pm);
+        m.in_child = true;
+    }
     let mut gas_spent: u64 = 0;
     loop {
         let pc = m.st.pc;
@@ -407,7 +424,7 @@ pub fn lockstep(case: &ExecCase, cfg: &LockCfg, obs: &mut Obs) -> Result<LockSum
             ensure!(rs.stack.len() <= mvm::S, "bounds:stack", "stack holds {} words after {:?} at pc {pc}", rs.stack.len(), op);
             ensure!(rs.memory.len() <= mvm::M, "bounds:memory", "memory holds {} words after {:?} at pc {pc}", rs.memory.len(), op);
             ensure!(rs.repeat.len() <= mvm::S, "bounds:repeat", "repeat stack holds {} entries after {:?} at pc {pc}", rs.repeat.len(), op);
-            ensure!(vm.parent_memory.len() <= 1, "bounds:compute-depth", "compute depth {} after {:?} at pc {pc}", vm.parent_memory.len(), op);
+            ensure!(vm.parent_memory.len() <= 1 && (case.parent.is_some() || vm.parent_memory.is_empty()), "bounds:compute-depth", "compute depth {} after {:?} at pc {pc}", vm.parent_memory.len(), op);
         }
         // Compare with the model's event.
         let cmp_ok_state = |m: &Machine, vm: &Vm, what: &str| -> Result<(), Violation> {
@@ -532,7 +549,7 @@ pub fn exec_agrees_with_lockstep(case: &ExecCase, sum: &LockSummary) -> Result<(
             if let Some(d) = diff_state(&sum.final_state, &out.fin) {
                 return Err(viol!("exec:final-state", "exec_ops final state differs from step-wise execution: {d}"));
             }
-            ensure!(out.parent_memory_depth == 0, "bounds:compute-depth", "parent_memory not empty after exec: {}", out.parent_memory_depth);
+            ensure!(out.parent_memory_depth == usize::from(case.parent.is_some()), "bounds:compute-depth", "compute depth after exec: {}", out.parent_memory_depth);
         }
         (Err((ix, _)), Some(at)) => {
             ensure!(*ix == at, "exec:error-index", "exec_ops reports the error at op {ix}, step-wise execution failed at {at}");
@@ -545,7 +562,7 @@ pub fn exec_agrees_with_lockstep(case: &ExecCase, sum: &LockSummary) -> Result<(
 
 /// `Vm::eval_ops`: Ok(bool) or an error rendering.
 pub fn run_eval(case: &ExecCase) -> Result<Result<bool, String>, Violation> {
-    let Some(mut vm) = make_vm(&case.init) else {
+    let Some(mut vm) = case.make_vm() else {
         return Err(viol!("harness:unreachable-init", "initial state not constructible: {:?}", case.init));
     };
     let ops = to_real_ops(&case.prog);
@@ -575,6 +592,10 @@ pub fn run_model(case: &ExecCase, budget: u64, breadth_cap: i64) -> (mvm::RunRes
         breadth_cap,
     };
     let mut m = Machine::new(&case.prog, case.init.clone(), &env, case.limit);
+    if let Some(pm) = &case.parent {
+        m.pmem = Some(pm);
+        m.in_child = true;
+    }
     let r = m.run();
     (r, m.st.clone(), m.gas, m.executed_total)
 }
